@@ -71,6 +71,8 @@ type World struct {
 	confSet map[types.TransactionID]bool
 	// ExpectTSetOK: the next V2TransactionSet input is a legitimate one (valid as of a basis that was a tip, within the supported distance)
 	ExpectTSetOK bool
+	// LenientLedger: CheckLedgerProofs skips inputs the ledger does not hold
+	LenientLedger bool
 	// TxEra is the signature era (consensus replay prefix regime) a transaction was signed in
 	TxEra map[types.TransactionID]int
 }
@@ -612,6 +614,9 @@ func (w *World) CheckLedgerProofs(class, what string, txns []types.V2Transaction
 				continue
 			}
 			le, ok := led.SC[in.Parent.ID]
+			if !ok && w.LenientLedger {
+				continue
+			}
 			if !ok {
 				w.C.Oracle(class, "%s: transaction %d spends siacoin element %d which the ledger at %v does not hold", what, w.Tx(txn.ID()), w.Elem(types.Hash256(in.Parent.ID)), led.Tip)
 				continue
@@ -626,6 +631,9 @@ func (w *World) CheckLedgerProofs(class, what string, txns []types.V2Transaction
 				continue
 			}
 			le, ok := led.SF[in.Parent.ID]
+			if !ok && w.LenientLedger {
+				continue
+			}
 			if !ok {
 				w.C.Oracle(class, "%s: transaction %d spends siafund element %d which the ledger at %v does not hold", what, w.Tx(txn.ID()), w.Elem(types.Hash256(in.Parent.ID)), led.Tip)
 				continue
@@ -741,9 +749,9 @@ func (w *World) AddV2(basis int, txns []types.V2Transaction, oks []bool) (res st
 }
 
 // Get1 looks a transaction id up through the v1 API.
-func (w *World) Get1(id types.TransactionID, kind string) {
+func (w *World) Get1(id types.TransactionID, kind string) (found bool) {
 	if w.Panicked {
-		return
+		return false
 	}
 	var txn types.Transaction
 	var ok bool
@@ -758,12 +766,13 @@ func (w *World) Get1(id types.TransactionID, kind string) {
 	}
 	w.C.Op(fmt.Sprintf("get1 %d", w.Tx(id)), res)
 	w.Stats["get1:"+kind]++
+	return ok
 }
 
 // Get2 looks a transaction id up through the v2 API.
-func (w *World) Get2(id types.TransactionID, kind string) {
+func (w *World) Get2(id types.TransactionID, kind string) (found bool) {
 	if w.Panicked {
-		return
+		return false
 	}
 	var txn types.V2Transaction
 	var ok bool
@@ -786,6 +795,7 @@ func (w *World) Get2(id types.TransactionID, kind string) {
 	}
 	w.C.Op(fmt.Sprintf("get2 %d", w.Tx(id)), res)
 	w.Stats["get2:"+kind]++
+	return ok
 }
 
 // Mine assembles a block from the pool with coreutils.MineBlock, requires the node to accept it,
@@ -795,6 +805,14 @@ func (w *World) Mine() (id int, ok bool) {
 		return -1, false
 	}
 	old := w.TipID()
+	// MineBlock stamps the block with the wall clock; the tree's synthetic timestamps run ahead of it
+	// for a while after an earlier mined block.  Such a block is not a statement about the pool.
+	for _, ts := range w.Node.CM.TipState().PrevTimestamps {
+		if ts.After(time.Now().Add(-time.Second)) {
+			w.Stats["mine:skipped-clock"]++
+			return -1, false
+		}
+	}
 	var blk types.Block
 	var found bool
 	if w.Guard("mineblock-panic", "MineBlock", func() { blk, found = coreutils.MineBlock(w.Node.CM, w.Net.Addr, 20*time.Second) }) {
@@ -977,7 +995,14 @@ func (w *World) TSet(basis int, txn types.V2Transaction, kind string) (set []typ
 				w.C.Oracle("v2transactionset-returns-non-pool-parent", "V2TransactionSet(%s) returned transaction %d as a parent, which is not (identical to) a pooled v2 transaction", kind, w.Tx(id))
 			}
 		}
+		if kind == "first-call" {
+			// the transaction was pooled before the tip moved; a block of the path may have spent one of
+			// its inputs (the rebased transaction is then simply no longer valid): only compare what the
+			// ledger still holds
+			w.LenientLedger = true
+		}
 		w.CheckLedgerProofs("v2transactionset-proof-differs-from-ledger", "V2TransactionSet("+kind+")", set, w.Led)
+		w.LenientLedger = false
 		// the returned transactions are the caller's: overwriting them must not reach the pool
 		d0 := DigestV2(w.Node.CM.V2PoolTransactions())
 		probe := make([]types.V2Transaction, len(set))
